@@ -369,7 +369,21 @@ func (s *Service) unblindProposal(ctx context.Context,
 	allFailedCh := make(chan struct{})
 	var failures atomic.Int64
 	for _, provider := range providers {
-		go func(ctx context.Context, provider builderclient.UnblindedProposalProvider, ch chan *api.VersionedSignedProposal) {
+		// The request is built here, before the provider's goroutine starts, as the proposal is
+		// altered once the first signed block has been received.
+		opts := &builderapi.UnblindProposalOpts{
+			Proposal: &api.VersionedSignedBlindedProposal{
+				Version:   proposal.Version,
+				Bellatrix: proposal.BellatrixBlinded,
+				Capella:   proposal.CapellaBlinded,
+				Deneb:     proposal.DenebBlinded,
+			},
+		}
+		go func(ctx context.Context,
+			provider builderclient.UnblindedProposalProvider,
+			opts *builderapi.UnblindProposalOpts,
+			ch chan *api.VersionedSignedProposal,
+		) {
 			log := s.log.With().Str("provider", provider.Address()).Logger()
 			log.Trace().Msg("Unblinding block with provider")
 
@@ -387,14 +401,7 @@ func (s *Service) unblindProposal(ctx context.Context,
 			var err error
 			for retries := 3; retries > 0; retries-- {
 				// Unblind the blinded block.
-				signedProposalResponse, err = provider.UnblindProposal(ctx, &builderapi.UnblindProposalOpts{
-					Proposal: &api.VersionedSignedBlindedProposal{
-						Version:   proposal.Version,
-						Bellatrix: proposal.BellatrixBlinded,
-						Capella:   proposal.CapellaBlinded,
-						Deneb:     proposal.DenebBlinded,
-					},
-				})
+				signedProposalResponse, err = provider.UnblindProposal(ctx, opts)
 
 				if (err != nil || signedProposalResponse == nil) && delivered.Load() {
 					// We have no block, and another relay has responded already.
@@ -424,7 +431,7 @@ func (s *Service) unblindProposal(ctx context.Context,
 			delivered.Store(true)
 			supplied = true
 			ch <- signedProposalResponse.Data
-		}(ctx, provider, respCh)
+		}(ctx, provider, opts, respCh)
 	}
 
 	select {
